@@ -86,6 +86,36 @@ def run(ctx):
     if known != "PATMOS-x, v2023":
         ctx.violation("the shipped coefficient file is not recognised as 'PATMOS-x, v2023' (version %r)" % (known,), {}, cls="version-shipped")
     sats = sorted(s for s in table0 if isinstance(table0[s], dict) and "channel_1" in table0[s])
+    # completeness of the shipped file, read STRICTLY (a key written twice counts as an error, not as "the last one wins"):
+    # every spacecraft either reader family can report has every channel coefficient, the launch date, and four
+    # thermometers with five coefficients each
+    dups = []
+
+    def _pairs(pairs):
+        seen = {}
+        for k_, v_ in pairs:
+            if k_ in seen:
+                dups.append(k_)
+            seen[k_] = v_
+        return seen
+    strict = json.loads(content, object_pairs_hook=_pairs)
+    if dups:
+        ctx.violation("the shipped coefficient file writes key(s) %s twice inside one object: the parser keeps the last one and "
+                      "drops the other silently" % sorted(set(dups)), {"duplicate_keys": sorted(set(dups))}, cls="shipped-file:duplicate-key")
+    from pygac.klm_reader import KLMReader
+    from pygac.pod_reader import PODReader
+    need = (["channel_%s.%s" % (c_, k_) for c_ in ("1", "2", "3a") for k_ in ("dark_count", "gain_switch", "s0", "s1", "s2")] +
+            ["channel_%s.%s" % (c_, k_) for c_ in ("3b", "4", "5") for k_ in ("centroid_wavenumber", "space_radiance",
+                                                                             "to_eff_blackbody_intercept", "to_eff_blackbody_slope", "b0", "b1", "b2")] +
+            ["thermometer_%d.d%d" % (t_, d_) for t_ in (1, 2, 3, 4) for d_ in range(5)] + ["date_of_launch"])
+    for nm in sorted(set(KLMReader.spacecraft_names.values()) | set(PODReader.spacecraft_names.values())):
+        ent = strict.get(nm)
+        missing = [k_ for k_ in need if ent is None or (k_.split(".")[0] not in ent) or
+                   ("." in k_ and k_.split(".")[1] not in ent[k_.split(".")[0]])]
+        if missing:
+            ctx.violation("shipped coefficient set of %s is incomplete: %s missing" % (nm, missing[:6]),
+                          {"spacecraft": nm, "missing": missing}, cls="shipped-file:incomplete")
+        ctx.case(("complete", nm), nontrivial=True, branch="shipped-file/complete-set")
     # the second unrecognised file is REWRITTEN now and then while another file is the current one; every content it has
     # had is a file id of its own for the expectation and the model (ids 3, 4, 5, ... all live at path p3)
     state3 = {"cur": 3, "next": 4}
